@@ -18,7 +18,7 @@ from koala.flux_finder import fluxes_from_ujk, fluxes_to_labels
 
 DRIVERS = ("c05",)
 MODEL_TARGETS = ["Model/Lattice.vo", "Model/Flux.vo"]
-TARGETS = ["Proofs/FluxFacts.vo", "Proofs/FluxLattice.vo", "Proofs/FluxAdjacent.vo"]
+TARGETS = ["Proofs/FluxFacts.vo", "Proofs/FluxLattice.vo", "Proofs/FluxAdjacent.vo", "Proofs/FluxGaugeGroup.vo"]
 LEVEL = "proof"
 TRUST = [
     "hand-written Gallina model coq/Model/Flux.v of flux_finder.fluxes_from_ujk / fluxes_to_labels (numpy fancy indexing, np.prod, complex arithmetic as Gaussian integers): modelled, not verified; tied to the code by the correspondence run (random u, and every u for E<=10/14)",
@@ -195,6 +195,20 @@ def spec_one(lat, u, with_moves, rng, max_moves, res, viol):
             bad = np.nonzero(np.asarray(g) != np.asarray(fr))[0][:4].tolist()
             viol("gauge", f"flipping all {len(lat.vertices.adjacent_edges[v])} bonds at vertex {v} changed the flux of plaquettes {bad}", {"vertex": int(v)})
             break
+    # a composition of gauge moves (C05_gauge_group_invariant_model): random vertices with repeats, applied one after
+    # the other; its own generator so that the other draws of this case are unchanged
+    if V > 0:
+        rg = np.random.default_rng([V, E, int(np.abs(u).sum()) if len(u) else 0, 5])
+        seq = rg.integers(0, V, size=int(rg.integers(2, min(2 * V, 60) + 1))).tolist()
+        u2 = u.copy()
+        for v in seq:
+            u2[lat.vertices.adjacent_edges[v]] *= -1
+        u2f = arg_forms(res, "ujk", u2)
+        g = fluxes_from_ujk(lat, u2f, real=True)
+        gc = fluxes_from_ujk(lat, u2f, real=False)
+        res.extra["gauge_compositions"] = res.extra.get("gauge_compositions", 0) + 1
+        if not np.array_equal(g, fr) or not np.array_equal(gc, fc):
+            viol("gauge-composition", f"a composition of {len(seq)} vertex gauge moves changed the fluxes", {"vertices": seq})
     for e in es:
         u2 = u.copy()
         u2[e] *= -1
